@@ -99,6 +99,7 @@ def run(ctx: core.Ctx):
         tasks.append(C.case_eq(n))
     tasks += [C.case_equiv_size_mismatch(2, 3), C.case_equiv_size_mismatch(4, 3)]
     tasks += [lemma_recombination(n) for n in range(1, 5 if ctx.quick else 7)]
+    symrun.purity(ctx, (Stabilizer.expand, Stabilizer.is_qubit_entangled, Stabilizer.is_equivalent_mod_phase, Stabilizer.__eq__, Stabilizer.validate), "C15.frame.no_module_state")
     symrun.run(ctx, tasks, label="sym")
     t = time.time()
     rnd = random.Random(ctx.seed + 15)
@@ -124,11 +125,28 @@ def run(ctx: core.Ctx):
         sel = reps if len(reps) <= 100 else rnd.sample(reps, 60 if ctx.quick else 200)
         pairs = [(a, b) for a in sel for b in sel if a == b or rnd.random() < (0.2 if ctx.quick else 1.0)]
         strat += [(ground_pairs, (n, ch, rnd.randrange(1 << 30))) for ch in core.chunked(pairs, 16)]
-    res = core.pmap(lambda j: j[0](j[1]), jobs + strat, chunks=1)
+    # edited objects: behaviour must follow the data the object holds now (systematic single-qubit / CZ edits on every qubit, every class)
+    from .. import history
+    hj = []
+    for n in range(2, 7):
+        its = history.items_for(n, rnd)
+        if n == 6 and ctx.quick:
+            its = rnd.sample(its, 150)
+        hj += [(history.edited_job, (n, ch, rnd.randrange(1 << 30), "expand")) for ch in core.chunked(its, 8 if n < 6 else 32)]
+    res = core.pmap(lambda j: j[0](j[1]), jobs + strat + hj, chunks=1)
     nj = len(jobs)
+    nh = len(jobs) + len(strat)
     for idx, r in enumerate(res):
         for famname, ok, key, what, rp in r:
             bounded = idx >= nj
+            if idx >= nh:
+                famname = "C15." + famname
+                fam = ctx.family(famname, BOUNDED, "native", "an object edited through its public attributes behaves like a fresh object with the same data")
+                fam.exhaustive = False
+                ctx.record(fam, PROVED if ok else REFUTED, rp if fam.total < 2 else None)
+                if not ok:
+                    ctx.violate(fam, key, what, rp)
+                continue
             fam = ctx.family(famname + (".stratified_n4_6" if bounded else ""), BOUNDED if bounded else GROUND, "native+oracle")
             fam.exhaustive = not bounded
             ctx.record(fam, PROVED if ok else REFUTED, rp if fam.total < 2 else None)
